@@ -243,7 +243,7 @@ var focused = [][2]string{
 }
 
 func init() {
-	sim.Register(&sim.Scenario{Property: "C17", Name: "system", Gen: gen, Exec: exec, Weight: 3, Race: true})
+	sim.Register(&sim.Scenario{Property: "C17", Name: "system", Gen: gen, Exec: exec, Weight: 5, Race: true})
 	for _, ref := range focused {
 		src := sim.Find(ref[0], ref[1])
 		if src == nil {
